@@ -386,8 +386,8 @@ func ruleLookupAcquire(c *Ctx, rule string) {
 				hasMu, hasMap := false, false
 				for i := 0; i < st.NumFields(); i++ {
 					ft := st.Field(i).Type()
-					if ts := ft.String(); ts == "sync.Mutex" || ts == "sync.RWMutex" {
-						hasMu = true
+					if ts := strings.TrimPrefix(ft.String(), "*"); ts == "sync.Mutex" || ts == "sync.RWMutex" {
+						hasMu = true // by value, or shared through a pointer by the copies of a value-type manager
 					}
 					if mt, ok := ft.Underlying().(*types.Map); ok {
 						et := mt.Elem()
@@ -442,8 +442,28 @@ func ruleLookupAcquire(c *Ctx, rule string) {
 				n++
 				held := l.Held(cl)
 				ok := false
+				// the classes of the manager's own lock: its mutex field, or — for a mutex held through a pointer field — whatever
+				// class the lock operations on that field resolve to
+				mgrClass := map[string]bool{}
+				for _, g := range regionFns(c, f, nil, 2) {
+					for _, lc := range eng.Calls(g) {
+						op := l.AsLockOp(lc.Common())
+						if op == nil || len(lc.Common().Args) == 0 {
+							continue
+						}
+						recv := lc.Common().Args[0]
+						if u, isU := recv.(*ssa.UnOp); isU {
+							recv = u.X
+						}
+						if fa, isFA := recv.(*ssa.FieldAddr); isFA {
+							if t, _, _, okT := eng.FieldOf(fa); okT && t == mt {
+								mgrClass[op.Class] = true
+							}
+						}
+					}
+				}
 				for k := range held {
-					if strings.HasPrefix(k, mt+".") {
+					if strings.HasPrefix(k, mt+".") || mgrClass[k] {
 						ok = true
 					}
 				}
